@@ -33,6 +33,8 @@ func main() {
 		err = fam.Sandbox(*scn, *out, *seed)
 	case "metadata":
 		err = fam.Metadata(*scn, *out, *seed)
+	case "verifycache":
+		err = fam.VerifyCache(*scn, *aux, *out, *seed, *n)
 	case "verify":
 		err = fam.Verify(*scn, *aux, *out, *seed, *n)
 	case "delegations":
